@@ -31,10 +31,21 @@ extern "C" void c11_rollback()
   verif_known(KF_ROLLBACK_NOT_LAST_FUNCTION, VX_REDEF == 0);
   FunctorManager::Entry& fe = fm.createOrReplace(n->name, noparams);
   fe.functor.swap(n);
+#ifdef VX_LATER
+  /* ... the function statement is accepted; a LATER statement of the same text fails to parse: Parser::parse calls
+   * Context::parsingEnd() and rejects the whole text */
+  verif_known(KF_FUNCTION_DEFINITION_SURVIVES_REJECTED_TEXT, true);
+  root.parsingBegin();
+  root.parsingEnd();
+#else
   /* ... the body fails to parse: the catch block calls rollback() */
   fm.rollback();
+#endif
   VX_WITNESS();
   verif_assert(fm._declarations.size() == 2, "C11: no declaration lost or added by a failed (re)definition");
+#ifdef VX_LATER
+  verif_assert(fm._declarations.size() == 2 && fm._declarations[0].functor->body == &bodyF && fm._declarations[1].functor->body == &bodyG, "C11: functions are as before a text that is rejected after it (re)defined one");
+#endif
   if (fm._declarations.size() == 2) {
     verif_assert(fm._declarations[0].functor->body == &bodyF && fm._declarations[0].functor->name.compare("F") == 0, "C11: first function keeps its definition");
     verif_assert(fm._declarations[1].functor->body == &bodyG && fm._declarations[1].functor->name.compare("G") == 0, "C11: second function keeps its definition");
